@@ -6,7 +6,7 @@ _RAW = ["wlb", "mapop", "mapmsg", "lanereq-v", "lanereq-m", "laneresp-v", "laner
 PROP = {
     "generated": ["WireConsts"],
     "lean_modules": ["SwimVerif.Model.Frames", "SwimVerif.Model.FrameCodecs", "SwimVerif.Model.FramesMon",
-                     "SwimVerif.Proofs.Frames", "SwimVerif.Proofs.FrameCodecs", "SwimVerif.Proofs.FrameSafety", "SwimVerif.Proofs.FrameCommand", "SwimVerif.Generated.WireConsts"],
+                     "SwimVerif.Proofs.Frames", "SwimVerif.Proofs.FrameCodecs", "SwimVerif.Proofs.FrameSafety", "SwimVerif.Proofs.FrameCommand", "SwimVerif.Model.FrameDiscard", "SwimVerif.Proofs.FrameDiscard", "SwimVerif.Generated.WireConsts"],
     # `cases` = message sequences (1-6 messages); a `valid` sequence expands to EVERY single split point plus four
     # random multi-splits (1, <=3, <=9, <=40 bytes per read); a `mutate` sequence to ten mutated streams.
     "engines": [
